@@ -219,6 +219,15 @@ func (t *Transport) Closed() bool {
 	return t.closed
 }
 
+// Fail makes the transport report the given loss from now on.
+func (t *Transport) Fail(k LossKind) {
+	t.mu.Lock()
+	defer t.mu.Unlock()
+	t.Loss = k
+	t.LoseAfter = t.Delivered
+	t.cond.Broadcast()
+}
+
 // Unstall lets a stalled device resume (recovery clause of C05).
 func (t *Transport) Unstall() {
 	t.mu.Lock()
